@@ -99,6 +99,13 @@ func (o *obs) sample(x *vsched.Exec) {
 }
 
 func scenario(cfg hlib.ChanCfg, specs []wspec, closeWith string, bound int, tag string) *explore.Scenario {
+	// closeWith "parent": nobody calls Close; the channel's parent context (the bootstrap's, a Connect option)
+	// is cancelled while writers wait
+	parentCancel := closeWith == "parent"
+	if parentCancel {
+		closeWith = ""
+		tag += "/parent-context-cancelled"
+	}
 	name := fmt.Sprintf("%s/", cfg)
 	for i, s := range specs {
 		if i > 0 {
@@ -124,7 +131,14 @@ func scenario(cfg hlib.ChanCfg, specs []wspec, closeWith string, bound int, tag 
 		Init: func() any { cur = &obs{}; return cur },
 		Body: func(v any) {
 			o := v.(*obs)
-			o.env = hlib.NewEnv(cfg, nil)
+			var cancelParent func()
+			if parentCancel {
+				var parent context.Context
+				parent, cancelParent = vcontext.WithCancel(context.Background())
+				o.env = hlib.NewEnv(cfg, parent)
+			} else {
+				o.env = hlib.NewEnv(cfg, nil)
+			}
 			o.env.T.Stalled = true // the sender gets stuck in its first transport write
 			id := 1
 			var cancels []func()
@@ -168,6 +182,9 @@ func scenario(cfg hlib.ChanCfg, specs []wspec, closeWith string, bound int, tag 
 						c()
 					}
 				}))
+			}
+			if cancelParent != nil {
+				ths = append(ths, vsched.Go("parent", cancelParent))
 			}
 			if closer {
 				ths = append(ths, vsched.Go("closer", func() {
@@ -234,7 +251,7 @@ func scenario(cfg hlib.ChanCfg, specs []wspec, closeWith string, bound int, tag 
 							fs = append(fs, explore.Finding{Key: "failed-call-sent/" + c.EP.String(), Msg: fmt.Sprintf("call #%d returned %v but its payload was transmitted;%s", c.ID, c.Err, ctxs)})
 						}
 						cerr := o.ctxs[wi].Err()
-						okErr := (cerr != nil && errors.Is(c.Err, cerr)) || (closeWith == "err" && errors.Is(c.Err, errClose)) || (closeWith == "nil" && errors.Is(c.Err, net.ErrClosed)) || (!cfg.Until && errors.Is(c.Err, netty.ErrAsyncNoSpace))
+						okErr := (cerr != nil && errors.Is(c.Err, cerr)) || (parentCancel && (errors.Is(c.Err, context.Canceled) || errors.Is(c.Err, net.ErrClosed))) || (closeWith == "err" && errors.Is(c.Err, errClose)) || (closeWith == "nil" && errors.Is(c.Err, net.ErrClosed)) || (!cfg.Until && errors.Is(c.Err, netty.ErrAsyncNoSpace))
 						if !okErr {
 							fs = append(fs, explore.Finding{Key: "unexpected-error/" + c.EP.String(), Msg: fmt.Sprintf("call #%d returned %v which is neither its context's error, the error the channel was closed with (net.ErrClosed for Close(nil)) nor (non-blocking) queue-full;%s", c.ID, c.Err, ctxs)})
 						}
@@ -242,7 +259,7 @@ func scenario(cfg hlib.ChanCfg, specs []wspec, closeWith string, bound int, tag 
 						if c.N != int64(c.Size) {
 							fs = append(fs, explore.Finding{Key: "wrong-count/" + c.EP.String(), Msg: fmt.Sprintf("call #%d succeeded with n=%d for %d bytes;%s", c.ID, c.N, c.Size, ctxs)})
 						}
-						if !on[c.ID] && !closer {
+						if !on[c.ID] && !closer && !parentCancel {
 							fs = append(fs, explore.Finding{Key: "accepted-not-sent", Msg: fmt.Sprintf("call #%d was accepted but never transmitted;%s", c.ID, ctxs)})
 						}
 					}
@@ -278,7 +295,11 @@ func build(tier string) []*explore.Scenario {
 				scenario(cfg, []wspec{{"cancel-later", []hlib.EP{C1, CV}}, {"bg", []hlib.EP{WV}}}, "", bound, ""),
 				scenario(cfg, []wspec{{"deadline", []hlib.EP{CV, C1, CV}}, {"bg", []hlib.EP{W1}}}, "", bound, ""),
 			)
-			for _, cw := range []string{"err", "nil"} {
+			cws := []string{"err", "nil"}
+			if q == 1 {
+				cws = append(cws, "parent") // (the parent context is cancelled instead of a Close)
+			}
+			for _, cw := range cws {
 				cs := scenario(cfg, []wspec{{"bg", []hlib.EP{W1, CV}}, {"bg", []hlib.EP{C1}}}, cw, bound, "")
 				cs.Shards = 4
 				scs = append(scs, cs)
